@@ -718,7 +718,7 @@ def to_regular(array, axis=1, highlevel=True, behavior=None):
     """
 
     def getfunction(layout, depth, posaxis):
-        posaxis = layout.axis_wrap_if_negative(posaxis)
+        posaxis = ak._util.axis_wrap_if_negative_at(layout, posaxis, depth)
         if posaxis == depth and isinstance(layout, ak.layout.RegularArray):
             return lambda: layout
         elif posaxis == depth and isinstance(layout, ak._util.listtypes):
@@ -774,7 +774,7 @@ def from_regular(array, axis=1, highlevel=True, behavior=None):
     """
 
     def getfunction(layout, depth, posaxis):
-        posaxis = layout.axis_wrap_if_negative(posaxis)
+        posaxis = ak._util.axis_wrap_if_negative_at(layout, posaxis, depth)
         if posaxis == depth and isinstance(layout, ak.layout.RegularArray):
             return lambda: layout.toListOffsetArray64(False)
         elif posaxis == depth and isinstance(layout, ak._util.listtypes):
@@ -2049,7 +2049,7 @@ def unflatten(array, counts, axis=0, highlevel=True, behavior=None):
             # internal layout to be unflattened (#910)
             layout = _pack_layout(layout)
 
-            posaxis = layout.axis_wrap_if_negative(posaxis)
+            posaxis = ak._util.axis_wrap_if_negative_at(layout, posaxis, depth)
             if posaxis == depth and isinstance(layout, ak._util.listtypes):
                 # We are one *above* the level where we want to apply this.
                 listoffsetarray = layout.toListOffsetArray64(True)
@@ -2845,8 +2845,8 @@ def fill_none(array, value, axis=ak._util.MISSING, highlevel=True, behavior=None
     else:
 
         def transform(layout, depth, posaxis):
-            posaxis = layout.axis_wrap_if_negative(posaxis)
-            if posaxis + 1 < depth:
+            posaxis = ak._util.axis_wrap_if_negative_at(layout, posaxis, depth)
+            if posaxis >= 0 and posaxis + 1 < depth:
                 return layout
 
             if posaxis + 1 == depth:
@@ -2877,7 +2877,7 @@ def is_none(array, axis=0, highlevel=True, behavior=None):
     """
 
     def getfunction(layout, depth, posaxis):
-        posaxis = layout.axis_wrap_if_negative(posaxis)
+        posaxis = ak._util.axis_wrap_if_negative_at(layout, posaxis, depth)
         if posaxis == depth - 1:
             nplike = ak.nplike.of(layout)
             if isinstance(layout, ak._util.optiontypes):
